@@ -61,7 +61,7 @@ func (g *Gen) faultyBody(ups []string, depth int) []L.Stmt {
 	var ss []L.Stmt
 	n := 2 + g.n(4, "fbn")
 	for i := 0; i < n; i++ {
-		switch g.n(16, "fbkind") {
+		switch g.n(17, "fbkind") {
 		case 12:
 			// the failing function is reached through a table field whose name is unusual text (the call site's name ends
 			// up in tracebacks and messages)
@@ -113,6 +113,14 @@ func (g *Gen) faultyBody(ups []string, depth int) []L.Stmt {
 			// inside a function called through a host function (Go re-entry)
 			g.class("err:through_host_call")
 			ss = append(ss, emit(call(name("hostcall"), fn([]string{"p"}, false, blk(g.siteStmt(), ret(name("p"), str("from callback")))), num(7))))
+		case 16:
+			// coroutine -> pcall -> wrapped coroutine that fails: afterwards the outer coroutine is the running one again
+			g.class("err:wrapped_coroutine_fails_inside_a_coroutine")
+			gen := fn(nil, false, blk(g.siteStmt(), ret(str("gen ok"))))
+			outer := fn(nil, false, blk(local1("gen", call(field(name("coroutine"), "wrap"), gen)), emit(str("inner"), call(name("select"), num(1), call(name("pcall"), name("gen")))),
+				emit(str("outer still the running one"), bin("==", call(field(name("coroutine"), "running")), name("oc")), call(field(name("coroutine"), "status"), name("oc"))), g.siteStmt(), ret(str("outer done"))))
+			ss = append(ss, local([]string{"oc"}), assign1(name("oc"), call(field(name("coroutine"), "create"), outer)),
+				emit(str("outer"), call(name("select"), num(1), call(field(name("coroutine"), "resume"), name("oc")))), emit(call(field(name("coroutine"), "status"), name("oc")), call(field(name("coroutine"), "running"))))
 		case 15:
 			// host functions directly under host functions: a library function that fails by itself under pcall, and callbacks
 			// of sort that is itself called through pcall(table.sort, ...) - two host frames between the fault
